@@ -432,8 +432,9 @@ func (c *Call) updateLocations(goroot, localgoroot string, localgomods, gopaths 
 		}
 	}
 	// Check GOPATH.
-	// TODO(maruel): Sort for deterministic behavior?
-	for prefix, dest := range gopaths {
+	// Most specific root first, for deterministic behavior.
+	for _, prefix := range longestFirst(gopaths) {
+		dest := gopaths[prefix]
 		if p := prefix + "/src/"; strings.HasPrefix(c.RemoteSrcPath, p) {
 			c.RelSrcPath = c.RemoteSrcPath[len(p):]
 			c.LocalSrcPath = pathJoin(dest, "src", c.RelSrcPath)
@@ -461,7 +462,8 @@ func (c *Call) updateLocations(goroot, localgoroot string, localgomods, gopaths 
 	// Check Go modules.
 	// Go module path detection only works with stack traces created on the local
 	// file system.
-	for prefix, pkg := range localgomods {
+	for _, prefix := range longestFirst(localgomods) {
+		pkg := localgomods[prefix]
 		if strings.HasPrefix(c.RemoteSrcPath, prefix+"/") {
 			c.RelSrcPath = c.RemoteSrcPath[len(prefix)+1:]
 			c.LocalSrcPath = c.RemoteSrcPath
@@ -862,6 +864,22 @@ func nameArguments(goroutines []*Goroutine) {
 		}
 		nextID++
 	}
+}
+
+// longestFirst returns the keys of m, the longest first, so that when roots
+// are nested the most specific one wins whatever the map iteration order is.
+func longestFirst(m map[string]string) []string {
+	keys := make([]string, 0, len(m))
+	for k := range m {
+		keys = append(keys, k)
+	}
+	sort.Slice(keys, func(i, j int) bool {
+		if len(keys[i]) != len(keys[j]) {
+			return len(keys[i]) > len(keys[j])
+		}
+		return keys[i] < keys[j]
+	})
+	return keys
 }
 
 func pathJoin(s ...string) string {
